@@ -342,6 +342,27 @@ def check(ctx):
     from .common_domains import name_alias_domains_rule
     name_alias_domains_rule(ctx, "C13.R7", ("apischema.discriminators",))
 
+    # ---------------- R10: str is not a collection
+    ctx.rule("C13.R10", "serialization of a union: an alternative annotated with an abstract collection (Sequence, Collection, ...) does not capture str / bytes values, which are instances of those classes but no collections for the data model (deserialization refuses a string for Sequence[...]): the value goes on to the str alternative", floor=2)
+    un = model.func("apischema.serialization.SerializationMethodVisitor.union")
+    guards10 = [n for n in ast.walk(un.node) if isinstance(n, ast.If) and "issubclass(str, cls)" in norm(n.test) and "Collection" in norm(n.test)]
+    picked = None
+    for g in guards10:
+        for a in ast.walk(g):
+            if isinstance(a, ast.Assign) and isinstance(a.value, ast.Name) and f"{SER_MOD}.{a.value.id}" in model.classes:
+                picked = a.value.id
+    ctx.check(picked is not None, "C13.R10", f"{un.qualname}:abstract-collection", None,
+              "every alternative is matched with a bare isinstance(obj, cls): for Union[Sequence[str], str] the value 'ab' is an instance of Sequence and is serialized as ['a', 'b'] (and differently with check_type=True when the item type is not str)",
+              un, un.node, detail="alternatives whose class str / bytes are instances of get a guarding alternative")
+    if picked is not None:
+        gm = model.func(f"{SER_MOD}.{picked}.serialize")
+        refuses = any(isinstance(n, ast.If) and "isinstance(obj, (str, bytes))" in norm(n.test) and any(isinstance(x, ast.Raise) for x in n.body) for n in walk_no_nested(gm.node))
+        delegates = any(isinstance(r, ast.Return) and "super().serialize(obj, path)" in norm(r) for r in walk_no_nested(gm.node))
+        ctx.check(refuses and delegates, "C13.R10", f"{gm.qualname}:refuses-str", None, f"{picked} does not raise for str / bytes before delegating: UnionMethod only tries the next alternatives when the matching one raises", gm, gm.node, detail="raise for str / bytes; else super().serialize(obj, path)")
+        um10 = model.func(f"{SER_MOD}.UnionMethod.serialize")
+        catches = any(isinstance(t_, ast.Try) and any(h.type is None or norm(h.type) in ("Exception", "TypeCheckError", "TypeError") for h in t_.handlers) for t_ in ast.walk(um10.node))
+        ctx.check(catches, "C13.R10", f"{um10.qualname}:next-alternative", None, "UnionMethod no longer goes on with the next alternatives when one raises", um10, um10.node, detail="try: alternative.serialize ... except Exception: pass", nontrivial=False)
+
     # ---------------- R9: the discriminator key is consumed by the dispatch
     ctx.rule("C13.R9", "ObjectMethod: the discriminator key, consumed by the union dispatch, is withdrawn from the keys offered to the pattern / additional-properties fields - otherwise deserialize(Base, serialize(Base, v)) puts 'type' into v's additional-properties field and the value does not round-trip", floor=1)
     omd = model.func(f"{DESER_MOD}.ObjectMethod.deserialize")
@@ -375,6 +396,8 @@ def check(ctx):
     ctx.check(preorder or derived_first, "C13.R8", f"{rs_f.qualname}:order", None, "rec_subclasses no longer yields a class before its own subclasses and the serializer does not reorder: the order of the alternatives is unknown", rs_f, rs_f.node, detail="parent, then its subclasses", nontrivial=False)
 
 def mutants(mb):
+    mb.add_text("str-captured-by-sequence-alternative", "apischema/serialization/__init__.py", "                    alt_cls = AbstractCollectionAlternative\n", "                    alt_cls = UnionAlternative\n", "C13.R10", "refuses-str")
+    mb.add_text("abstract-collection-alternative-accepts-str", "apischema/serialization/methods.py", "        if isinstance(obj, (str, bytes)):\n            # caught by UnionMethod, which goes on with the next alternatives\n            raise TypeCheckError(f\"Expected {self.cls}, found {obj.__class__}\", [])\n", "", "C13.R10", "refuses-str")
     mb.add_text("by-type-exact-class-only", "apischema/deserialization/methods.py", "            for data_cls, method in self.method_by_cls.items():\n                if isinstance(data, data_cls):\n                    break\n            else:\n                raise bad_type(data, *self.method_by_cls)\n", "            raise bad_type(data, *self.method_by_cls)\n", "C13.R1", "subclasses")
     mb.add_text("discriminator-left-for-aggregates", "apischema/deserialization/methods.py", "            # the discriminator key has been consumed by the union dispatch\n            remain.discard(discriminator)\n", "", "C13.R9", "remain")
     mb.add_text("discriminated-serializer-parents-first", "apischema/discriminators.py", "                target=Union[tuple(reversed(list(rec_subclasses(cls))))],\n", "                target=Union[tuple(rec_subclasses(cls))],\n", "C13.R8", "serializer-order")
